@@ -72,7 +72,7 @@ def _case(draw):
     else:
         shape = "polygon" if shape == "missing" else shape
     terms = list(draw(st.permutations(terms)))
-    return {"terms": terms, "vals": vals, "xlim": [xl, xh], "ylim": [yl, yh], "shape": shape}
+    return {"terms": terms, "vals": vals, "xlim": [xl, xh], "ylim": [yl, yh], "shape": shape, "prime": draw(st.integers(0, 2)) == 0}
 
 
 def strategy(tier):
@@ -121,6 +121,12 @@ def run_case(case):
     from pacti.utils.plots import constraints_to_vertices
     labels = ["shape:" + case["shape"]]
     tl = env.TL(case["terms"])
+    if case.get("prime"):
+        # an earlier query on the same constraint-list object with a different (smaller) window must not influence this one
+        (xl, xh), (yl, yh) = case["xlim"], case["ylim"]
+        env.call("constraints_to_vertices", constraints_to_vertices, tl, env.Var("x"), env.Var("y"),
+                 {env.Var(k): v for k, v in case["vals"].items()}, (xl, (xl + xh) / 2), ((yl + yh) / 2, yh))
+        labels.append("primed")
     status, res = env.call("constraints_to_vertices", constraints_to_vertices, tl, env.Var("x"), env.Var("y"),
                            {env.Var(k): v for k, v in case["vals"].items()}, tuple(case["xlim"]), tuple(case["ylim"]))
     kind, corners, hp = exact_corners(case)
